@@ -167,8 +167,9 @@ package initializer
 //@ func (*initializer.CoreCRDs).Run
 //@ props C20
 //@ let $secret = arg 3 (client.Reader).Get
-//@ site (*resource.APIPatchingApplicator).Apply(_, _, $o)
+//@ site (*resource.APIPatchingApplicator).Apply(_, _, $o, $aopts...)
 //@   assert [C20:applies-the-parsed-crd] $o == crd
+//@   assert [C20:every-core-crd-is-applied-on-every-run-without-a-condition] len($aopts) == 0
 //@   assert [C20:conversion-crd-carries-the-current-ca-bundle] (crd.Spec.Conversion != nil && crd.Spec.Conversion.Strategy == "Webhook") ==>
 //@        (c.WebhookTLSSecretRef != nil && crd.Spec.Conversion.Webhook != nil && crd.Spec.Conversion.Webhook.ClientConfig != nil
 //@         && len(crd.Spec.Conversion.Webhook.ClientConfig.CABundle) > 0
@@ -181,7 +182,8 @@ package initializer
 //@   invariant [C20:validating-webhooks-so-far-carry-the-bundle] forall j :: 0 <= j && j < done ==> as(obj, *admv1.ValidatingWebhookConfiguration).Webhooks[j].ClientConfig.CABundle == caBundle
 //@ loop range conf.Webhooks #1
 //@   invariant [C20:mutating-webhooks-so-far-carry-the-bundle] forall j :: 0 <= j && j < done ==> as(obj, *admv1.MutatingWebhookConfiguration).Webhooks[j].ClientConfig.CABundle == caBundle
-//@ site (*resource.APIPatchingApplicator).Apply(_, _, $o)
+//@ site (*resource.APIPatchingApplicator).Apply(_, _, $o, $aopts...)
+//@   assert [C20:every-webhook-configuration-is-applied-on-every-run-without-a-condition] len($aopts) == 0
 //@   assert [C20:bundle-is-the-current-serving-certificate] len(caBundle) > 0 && caBundle == as($secret, *corev1.Secret).Data["tls.crt"]
 //@   assert [C20:every-validating-webhook-carries-the-current-ca-bundle] typeis($o, *admv1.ValidatingWebhookConfiguration) ==>
 //@        forall j :: 0 <= j && j < len(as($o, *admv1.ValidatingWebhookConfiguration).Webhooks) ==> as($o, *admv1.ValidatingWebhookConfiguration).Webhooks[j].ClientConfig.CABundle == caBundle
